@@ -79,6 +79,20 @@ Section NpDot.
                vmul (a_at a (put_axes (fa ++ axes_a) (ia ++ c) (length (a_shape a))))
                     (a_at b (put_axes (axes_b ++ fb) (c ++ ib) (length (a_shape b)))))).
 
+  (* np.einsum with ONE operand, "lhs->rhs" (labels are integers; rhs: distinct labels of lhs):
+       out[o] = sum over the index tuples ix of the operand on which positions with equal labels carry equal
+                coordinates and whose coordinates at the output labels are o, of a[ix]. *)
+  Definition pos_of (lhs : list Z) (lab : Z) : nat :=
+    (fix go (l : list Z) (p : nat) := match l with [] => p | x :: r => if x =? lab then p else go r (S p) end) lhs 0%nat.
+  Definition es_consistent (lhs : list Z) (ix : idx) : bool :=
+    forallb (fun p => forallb (fun q => implb (nth p lhs 0 =? nth q lhs 0) (nth p ix 0 =? nth q ix 0))
+                              (seq 0 (length lhs))) (seq 0 (length lhs)).
+  Definition es_proj (lhs rhs : list Z) (ix : idx) : idx := map (fun lab => nth (pos_of lhs lab) ix 0) rhs.
+  Definition np_einsum1 (lhs rhs : list Z) (a : arr) : arr :=
+    mkArr (es_proj lhs rhs (a_shape a))
+          (fun o => sum_idx (a_shape a)
+                      (fun ix => if es_consistent lhs ix && idx_eqb (es_proj lhs rhs ix) o then a_at a ix else vzero)).
+
   (* row-major table of a matrix-valued function *)
   Definition mat_flat (m p : Z) (f : Z -> Z -> V) : list V :=
     flat_map (fun i => map (fun k => f i k) (zrange p)) (zrange m).
